@@ -12,6 +12,7 @@ import (
 	"sort"
 	"strconv"
 	"strings"
+	"syscall"
 	"time"
 
 	"github.com/lni/dragonboat/v4/verifsim/choice"
@@ -255,6 +256,63 @@ func SimBinary() string {
 	return self
 }
 
+// realTimeOnly reports whether a run-executing subcommand only touches
+// scenarios marked RealTime (then the driver binary executes it itself).
+func realTimeOnly(args []string) bool {
+	var names []string
+	switch args[0] {
+	case "worker":
+		if len(args) < 3 {
+			return false
+		}
+		c := checks[args[1]]
+		if c == nil {
+			return false
+		}
+		for _, p := range allParts(c, args[2]) {
+			names = append(names, p.Scenario)
+		}
+	case "one", "dethash":
+		if len(args) < 2 {
+			return false
+		}
+		names = append(names, args[1])
+	case "replay", "evalserver":
+		if len(args) < 2 {
+			return false
+		}
+		b, err := os.ReadFile(args[1])
+		if err != nil {
+			return false
+		}
+		var rf ReplayFile
+		if json.Unmarshal(b, &rf) != nil {
+			return false
+		}
+		names = append(names, rf.Scenario)
+	}
+	if len(names) == 0 {
+		return false
+	}
+	for _, n := range names {
+		if sc := scenarios[n]; sc == nil || !sc.RealTime {
+			return false
+		}
+	}
+	return true
+}
+
+// workerBinary is the binary that runs the workers of a check.
+func workerBinary(prop, tier string) string {
+	if realTimeOnly([]string{"worker", prop, tier}) {
+		if p, err := os.Executable(); err == nil {
+			return p
+		}
+		return os.Args[0]
+	}
+	return SimBinary()
+}
+
 // Main is the entry point of cmd/simcheck.
 func Main(args []string) int {
 	if len(args) < 1 {
@@ -265,7 +323,7 @@ func Main(args []string) int {
 	case "worker", "replay", "evalserver", "one", "dethash":
 		// everything that executes simulated runs is done by the simulation
 		// binary (faketime runtime); this binary only drives it
-		if sb := SimBinary(); !Faketime && sb != os.Args[0] {
+		if sb := SimBinary(); !Faketime && sb != os.Args[0] && !realTimeOnly(args) {
 			cmd := exec.Command(sb, args...)
 			cmd.Stdin, cmd.Stdout, cmd.Stderr = os.Stdin, os.Stdout, os.Stderr
 			if _, set := os.LookupEnv("GOMAXPROCS"); !set {
@@ -473,11 +531,12 @@ func parent(prop, tier string) int {
 				}
 				outFile := filepath.Join(workDir, fmt.Sprintf("w%d.json", w))
 				_ = os.Remove(outFile)
-				cmd := exec.Command(SimBinary(), "worker", prop, tier, strconv.FormatUint(seed, 10),
+				cmd := exec.Command(workerBinary(prop, tier), "worker", prop, tier, strconv.FormatUint(seed, 10),
 					strconv.Itoa(w), strconv.Itoa(nw), strconv.FormatInt(left, 10), outFile)
 				cmd.Stderr = os.Stderr
 				cmd.Stdout = os.Stderr
 				cmd.Env = append(os.Environ(), "GOMAXPROCS=1", "VERIF_START_COUNT="+startCount)
+				cmd.SysProcAttr = &syscall.SysProcAttr{Pdeathsig: syscall.SIGKILL} // no orphans
 				err := cmd.Run()
 				var o workerOut
 				b, rerr := os.ReadFile(outFile)
@@ -724,6 +783,11 @@ func worker(args []string) int {
 		return 2
 	}
 	_ = nw
+	// a runaway run must not take the machine down: cap the address space
+	if gb := envInt("VERIF_WORKER_AS_GB", 16); gb > 0 {
+		lim := syscall.Rlimit{Cur: uint64(gb) << 30, Max: uint64(gb) << 30}
+		_ = syscall.Setrlimit(syscall.RLIMIT_AS, &lim)
+	}
 	parts := allParts(c, tier)
 	known := loadKnown()
 	out := workerOut{Counters: map[string]int64{}, Known: map[string]int64{}, PartRuns: map[string]int64{}}
